@@ -7,7 +7,10 @@ class to_number:
     args = dict(number=ANY)
 
     def spec(number):
-        if is_str(number):
+        # text spells a number when int() / float() read it - and it is not one of the spellings only Python reads as a number
+        # (digit grouping with '_'; nan / inf / infinity: float_of_text is a finite real here, flag finite_floats, and the
+        # non-finite words are the bounded stand-in's)
+        if is_str(number) and '_' not in number:
             if text_is_int(number):
                 return int_of_text(number)
             if text_is_float(number):
@@ -25,7 +28,7 @@ class parse_number:
     def spec(string):
         if is_numb(string) or is_err(string):
             return string
-        if is_str(string):
+        if is_str(string) and '_' not in string:
             if text_is_int(string):
                 return int_of_text(string)
             if text_is_float(string):
